@@ -152,6 +152,26 @@ def run(ctx):
         det = {"compared": cmp_args, "returned when equal": ret}
         both = " ".join(cmp_args)
         ok = ret is not None and ".0.0" in ret and "Some" in ret and ".0.1" in both and "name" in both
+    if not ok:
+        # iterator idiom:  table.iter().find(|(_, n)| *n == name).map(|(f, _)| *f)
+        ret = show(unname(nf.expr_local(0))) if nf.defs(0) else ""
+        finds = [(b, t) for b, t in nf.calls() if (t.get("callee") or "").endswith("Iterator>::find") or (t.get("raw") or "").endswith("Iterator::find")]
+        maps = [(b, t) for b, t in nf.calls() if (t.get("callee") or "").endswith("Option::<T>::map")]
+        cl = sorted(p_ for p_ in cr.fns if p_.startswith(NAMES + "::{closure"))
+        if len(finds) == 1 and len(maps) == 1 and len(cl) == 2 and nf.dominates(finds[0][0], maps[0][0]):
+            pred, proj = None, None
+            for p_ in cl:
+                g = cr.fns[p_]
+                eqc = [t for _, t in g.calls() if "PartialEq" in (t.get("callee") or "") and (t.get("callee") or "").endswith("::eq")]
+                if eqc:
+                    a_ = " ".join(show(g.expr_op(x)) for x in eqc[0]["args"])
+                    pred = (".1" in a_ and "arg1.0" in a_.replace("(*arg1).0", "arg1.0"), a_[:160])
+                else:
+                    r_ = [show(g.expr_rvalue(st["rv"])) for bb in g.reachable_blocks() for st in g.stmts(bb) if st["d"]["l"] == 0 and not st["d"]["p"]]
+                    proj = (len(r_) == 1 and r_[0].replace("*", "").replace("(", "").replace(")", "").endswith(".0"), r_)
+            src = show(unname(nf.expr_op(finds[0][1]["args"][0])))
+            det = {"idiom": "iter().find(name == row.1).map(row.0)", "find predicate": pred, "map projection": proj, "iterates": src[:80]}
+            ok = bool(pred and pred[0] and proj and proj[0] and "opcode_lookup" in src or (pred and pred[0] and proj and proj[0] and "::iter(" in src))
     ck.ob("R30a", NAMES + "|lookup", ok, "the lookup compares the row's name (.1) with the requested name and returns that row's function (.0)",
           site=nf.where(eqs[0][0]) if eqs else nf.where(0), detail=det)
     # builder
@@ -172,22 +192,43 @@ def run(ctx):
     ok = len(stores) == 1
     if ok:
         b, st = stores[0]
-        dst = show(bf.expr_place(st["d"], deep=True))
+
+        def elem0_of(e):
+            """container C if e denotes element 0 of C (C[0], *C.index(0), through as_slice/deref/borrows)"""
+            e = strip(e)
+            while e[0] in ("ref", "deref", "cast") or (e[0] == "call" and e[1].endswith(("::deref", "::as_slice", "::as_ref")) and len(e[2]) == 1):
+                e = strip(e[2] if e[0] in ("ref", "cast") else e[1] if e[0] == "deref" else e[2][0])
+                if e[0] == "index" or (e[0] == "call" and "Index" in e[1]):
+                    break
+            c = None
+            if e[0] == "index" and strip(e[2])[0] == "const" and strip(e[2])[1] == 0:
+                c = e[1]
+            elif e[0] == "call" and "Index" in e[1] and e[1].endswith("::index") and len(e[2]) == 2 and strip(e[2][1])[0] == "const" and strip(e[2][1])[1] == 0:
+                c = e[2][0]
+            if c is None:
+                return None
+            c = strip(c)
+            while c[0] in ("ref", "deref") or (c[0] == "call" and c[1].endswith(("::deref", "::as_slice", "::as_ref")) and len(c[2]) == 1):
+                c = strip(c[2] if c[0] == "ref" else c[1] if c[0] == "deref" else c[2][0])
+            return show(unname(c))
+        # f_lookup[<ix> as usize] = <val>
+        ixs = [p for p in st["d"]["p"] if isinstance(p, dict) and "ix" in p]
+        cont = elem0_of(unname(bf.expr_local(ixs[0]["ix"]))) if ixs else None
         val = show(unname(bf.expr_rvalue(st["rv"])))
-        lens = [x for x in bf.dominators(b) if bf.term(x)["k"] == "switch" and (bf.switch_norm(x) if hasattr(bf, "switch_norm") else None)]
         len_ok = False
         for x in bf.dominators(b):
             if bf.term(x)["k"] != "switch":
                 continue
-            n = mir.compare_norm(bf.switch_cond(x))
-            if n and mir.show_norm(n).replace(" ", "") in ("+len(idx)-1==0", "+len((Iterator>::next(&mutiter)asSome).0.1)-1==0"):
+            n = mir.compare_norm(unname(bf.switch_cond(x)))
+            if n and n[1] == -1 and n[2] == "==0" and cont is not None and [k.replace("&", "").replace("*", "") for k in n[0]] == [f"len({cont})".replace("&", "").replace("*", "")]:
                 be = bf.bool_edges(x)
-                len_ok = be is not None and bf.dominates(be[0], b) if be else False
-            elif n and "len(" in mir.show_norm(n) and n[1] == -1 and n[2] == "==0":
-                be = bf.bool_edges(x)
-                len_ok = be is not None and bf.dominates(be[0], b)
-        det["one-byte guard dominates"] = len_ok
-        same_entry = ".0.1" in dst and ".0.0" in val and "opcode_by_name" in val and "index(" in dst.replace("Index>::", "") and ", 0)" in dst
+                len_ok = be is not None and (bf.dominates(be[0], b) or be[0] == b)
+        det["index is byte 0 of"] = cont
+        det["one-byte guard on the same bytes dominates"] = len_ok
+        # name and opcode bytes come from the same map entry: <entry>.0 and <entry>.1
+        flat = lambda t: t.replace("&", "").replace("*", "")
+        same_entry = cont is not None and cont.endswith(".1") and flat(f"opcode_by_name(::deref({cont[:-2]}.0))") in flat(val.replace("f_table::", ""))
+        det["value"] = val[:160]
         ok = len_ok and same_entry
     ck.ob("R30a", BUILD + "|store", ok,
           "the table stores opcode_by_name(name) at index idx[0], only when idx has exactly one byte; name and idx come from the same entry",
